@@ -209,6 +209,42 @@ def call(I, name, args, e):
         nm = (base.name or 'str') + '.split(%s,from=%s)' % (show(args[1]), show(lo))
         return IterV(SeqV('&str', [('sym', ('a', nm))], name=nm), False, kind='split')
 
+    # ---------------- small std helpers that refactors like to use
+    if n in ('core::cmp::Ord::max', 'core::cmp::Ord::min', 'core::cmp::max', 'core::cmp::min') or re.match(r'^core::cmp::impls::<impl core::cmp::Ord for \w+>::(max|min)$', n):
+        a, b = a0, deref(args[1])
+        if is_term(a) and is_term(b):
+            c = cmp('le', a, b)
+            return ite(c, b, a) if n.endswith('max') else ite(c, a, b)
+        return I.top('max/min of non-scalars', e)
+    if n in ('core::str::<impl str>::is_empty', 'core::slice::<impl [T]>::is_empty', 'alloc::string::String::is_empty'):
+        if isinstance(a0, SeqV): return cmp('eq', seqlen(a0.segs), ZERO)
+        if isinstance(a0, SliceV): return cmp('eq', sub(a0.hi, a0.lo), ZERO)
+    if n == 'alloc::vec::Vec::<T, A>::insert':
+        s, idx, v = a0, args[1], args[2]
+        if isinstance(s, SeqV) and is_term(idx) and idx[0] == 'c' and not s.stores:
+            pos = 0
+            for k_, sg in enumerate(s.segs):
+                if pos == idx[1]:
+                    s.segs.insert(k_, ('int', v, 1) if s.is_bytes() else ('elem', v)); I.log.append(('mutate', n, e.get('sp'))); return UNIT
+                l = seglen(sg)
+                if l[0] != 'c': break
+                pos += l[1]
+            if pos == idx[1] and all(seglen(x)[0] == 'c' for x in s.segs):
+                s.segs.append(('int', v, 1) if s.is_bytes() else ('elem', v)); I.log.append(('mutate', n, e.get('sp'))); return UNIT
+        return I.top('Vec::insert at a position that is not a constant segment boundary', e)
+    if n.endswith('as core::iter::Iterator>::count') or n == 'core::iter::Iterator::count':
+        if isinstance(a0, IterV): return seqlen(a0.seq.segs) if isinstance(a0.seq, SeqV) else I.top('count', e)
+    if n.endswith('as core::iter::Iterator>::rev') or n == 'core::iter::Iterator::rev' or n.endswith('core::iter::DoubleEndedIterator>::rev'):
+        if isinstance(a0, IterV) and isinstance(a0.seq, SeqV):
+            sq = a0.seq
+            rs = SeqV(sq.elem, [], name=sq.name)
+            for sg in reversed(sq.segs):
+                if sg[0] in ('elem', 'fill') or (sg[0] == 'int' and sg[2] == 1): rs.segs.append(sg)
+                elif sg[0] == 'sym': rs.segs.append(('sym', ('call', 'reversed', sg[1])))
+                else: return I.top('reverse iteration over %s' % sg[0], e)
+            return IterV(rs, a0.by_ref, a0.kind)
+        return I.top('rev', e)
+
     # ---------------- TryFrom between integers / Result
     mm = re.match(r'^core::convert::num::(?:ptr_try_from_impls::)?<impl core::convert::TryFrom<(\w+)> for (\w+)>::try_from$', n)
     if mm:
@@ -254,6 +290,7 @@ def call(I, name, args, e):
     m = re.match(r'^core::num::<impl (u8|u16|u32|u64|usize)>::(\w+)$', n)
     if m:
         bits = int_bits(m.group(1)); op = m.group(2)
+        if op in ('wrapping_add', 'wrapping_sub') and not (is_term(a0) and is_term(args[1])): return I.top(op + ' of non-scalars', e)
         if op == 'wrapping_add': return wrap(add(a0, args[1]), 1 << bits)
         if op == 'wrapping_sub': return wrap(sub(a0, args[1]), 1 << bits)
         if op == 'to_le_bytes': return SeqV('u8', [('int', a0, bits // 8)])
